@@ -46,7 +46,7 @@ PPC = UI + 'PythonPathContext'
 
 
 def run(ctx):
-    for fn in (r1_candidate_order, r2_search_order, r3_split_walk, r4_name_derivation, r5_normalisation, r6_import_by_path, r7_no_memoised_filesystem_answers, r8_syspath_restored, r1b_every_candidate_is_tried, r9_paths_are_not_resolved):
+    for fn in (r1_candidate_order, r2_search_order, r3_split_walk, r4_name_derivation, r5_normalisation, r6_import_by_path, r7_no_memoised_filesystem_answers, r8_syspath_restored, r1b_every_candidate_is_tried, r9_paths_are_not_resolved, r10_definite_assignment):
         ctx.rep.rule(fn, ctx)
 
 
@@ -707,6 +707,12 @@ def r9_paths_are_not_resolved(ctx):
                    'the module path is resolved through symbolic links before it is split / named: for a linked package directory or module file the search-path directory and the '
                    'dotted name are those of the link target, not of the path that was given (and join(dpath, rel) no longer is that path)', anchor=q)
     rep.floor('C17.R9', 'path normalisations in the path <-> name functions', n, 2)
+
+
+def r10_definite_assignment(ctx):
+    """an UnboundLocalError inside name <-> path resolution aborts the lookup instead of answering it (DEFINITE-ASSIGNMENT, see common.definite_assignment)"""
+    from .common import definite_assignment
+    definite_assignment(ctx, 'C17.R10', {'xdoctest.utils.util_import'}, 10)
 
 
 # ---------------------------------------------------------------------------
